@@ -47,6 +47,33 @@ func (e *Enc) Run() (err error) {
 		e.vals[fv] = v
 		e.assume(e.typeInvFormula(st, v))
 	}
+	// WLOG normalisation of window offsets: rows can be re-indexed per backing array, so
+	// the first parameter slice that refers to a backing array starts at offset 0 (no
+	// assumption anywhere constrains absolute cell indices). A later slice parameter is
+	// normalised too unless it shares its backing array with an earlier one.
+	{
+		type sl struct {
+			ref, off string
+			elem     string
+		}
+		var seen []sl
+		for _, p := range fn.Params {
+			v := e.vals[p]
+			for i, lf := range typeLeaves(p.Type()) {
+				if st, ok := lf.T.Underlying().(*types.Slice); ok && lf.Dims == 0 && lf.Path[len(lf.Path)-1] == 1000 {
+					cur := sl{v.L[i], v.L[i+1], typeKey(st.Elem())}
+					alts := []string{"(= " + cur.off + " 0)"}
+					for _, o := range seen {
+						if o.elem == cur.elem {
+							alts = append(alts, "(= "+cur.ref+" "+o.ref+")")
+						}
+					}
+					e.assume(sOr(alts...))
+					seen = append(seen, cur)
+				}
+			}
+		}
+	}
 	if fn.Signature.Recv() != nil && len(fn.Params) > 0 {
 		if _, ok := fn.Params[0].Type().Underlying().(*types.Pointer); ok {
 			e.assume("(> " + e.vals[fn.Params[0]].L[0] + " 0)")
@@ -155,6 +182,10 @@ func (e *Enc) execBlock(b *ssa.BasicBlock) {
 			for _, i := range live {
 				cs = append(cs, conds[i])
 			}
+			if e.liveIn == nil {
+				e.liveIn = map[*ssa.BasicBlock][]string{}
+			}
+			e.liveIn[b] = cs
 			pcName := e.declare(fmt.Sprintf("pc!%d", b.Index), "Bool")
 			e.assume("(= " + pcName + " " + sOr(cs...) + ")")
 			e.pc[b] = pcName
@@ -809,6 +840,14 @@ func (e *Enc) binop(op token.Token, x, y *Val, T types.Type, pos token.Pos, ins 
 		return mk(e.shift(op, x, y, T, pos))
 	case isInteger(xt):
 		a, b := x.term(), y.term()
+		if (op == token.ADD || op == token.SUB || op == token.MUL) && !isUnsigned(T) && e.ctr != nil && e.ctr.Opts["overflow"] == "check" && e.curBlock != nil {
+			// signed arithmetic: prove that it does not overflow, then use the
+			// mathematical result (keeps index arithmetic linear and ite-free)
+			sym := map[token.Token]string{token.ADD: "+", token.SUB: "-", token.MUL: "*"}[op]
+			t := "(" + sym + " " + a + " " + b + ")"
+			e.oblige("safe.overflow", "", intRangeFormula(t, T), pos, "signed "+sym+" does not overflow")
+			return mk(t)
+		}
 		switch op {
 		case token.ADD:
 			return mk(e.wrap("(+ "+a+" "+b+")", T, true))
@@ -831,6 +870,13 @@ func (e *Enc) binop(op token.Token, x, y *Val, T types.Type, pos token.Pos, ins 
 				if c, ok := constOf(y); !ok || c.Sign() == 0 {
 					e.oblige("safe.div", "", "(not (= "+b+" 0))", pos, "modulo by zero")
 				}
+			}
+			if _, isConst := constOf(y); !isConst && e.ctr != nil && strings.Contains(e.ctr.Opts["abstract"], "mod") {
+				// remainder by a variable divisor as an uninterpreted function with its
+				// range facts (sound over-approximation; keeps the query linear)
+				r := "(umod " + a + " " + b + ")"
+				e.assumeHere("(and (=> (and (>= " + a + " 0) (> " + b + " 0)) (and (<= 0 " + r + ") (< " + r + " " + b + ") (<= " + r + " " + a + "))) (=> (and (<= " + a + " 0) (> " + b + " 0)) (and (<= " + r + " 0) (< (- " + b + ") " + r + "))))")
+				return mk(r)
 			}
 			return mk("(gmod " + a + " " + b + ")")
 		case token.AND, token.OR, token.XOR, token.AND_NOT:
@@ -1412,9 +1458,10 @@ func (e *Enc) strIndex(s, i string, T types.Type, pos token.Pos) *Val {
 }
 
 func (e *Enc) execReturn(ins *ssa.Return, st *State) {
+	e.fireAssertAt("return", "return", ins.Pos(), st, map[string]*Val{}, "true")
 	var vs []*Val
 	for _, r := range ins.Results {
 		vs = append(vs, e.val(r))
 	}
-	e.retVals = append(e.retVals, retPoint{pc: e.pc[ins.Block()], vals: vs, state: st.clone(), pos: ins.Pos()})
+	e.retVals = append(e.retVals, retPoint{block: ins.Block(), pc: e.pc[ins.Block()], vals: vs, state: st.clone(), pos: ins.Pos()})
 }
